@@ -101,6 +101,13 @@ structure Schema where
   dres : Option Nat
   deriving DecidableEq, Repr, Inhabited
 
+/-- the member objects an object OWNS (`fields` / `arguments` lists) -/
+def kids : Obj → List Addr
+  | .type t => t.fields
+  | .field f => f.args
+  | .arg _ => []
+  | .dir d => d.args
+
 /-! ### heap primitives -/
 
 def Heap.size (h : Heap) : Nat := h.objs.length
@@ -241,32 +248,30 @@ def onField (v : Visitor) (reg : List (String × Addr)) (tn : String) (h : Heap)
 def fieldName (h : Heap) (a : Addr) : Option String := (h.readField a).map (·.name)
 def argName (h : Heap) (a : Addr) : Option String := (h.readArg a).map (·.name)
 
+/-- base part of `on_object` / `on_interface` (+ the heal visitor's `updated.interfaces = …`) -/
+def compositeRest (v : Visitor) (reg : List (String × Addr)) (a : Addr) (h : Heap) (t : TypeO) : Heap × Option Addr :=
+  let r := mapFilter (onField v reg t.name) h t.fields
+  let upd := if r.2 != t.fields then r.1.alloc (.type { t with fields := r.2 }) else (r.1, a)
+  match v with
+  | .heal =>
+    if t.kind == Kind.object then
+      match upd.1.readType upd.2 with
+      | some tu => (upd.1.write upd.2 (.type { tu with ifaces := healedRefs reg tu.ifaces }), some upd.2)
+      | none => (upd.1, some upd.2)
+    else (upd.1, some upd.2)
+  | _ => (upd.1, some upd.2)
+
 /-- `on_object` / `on_interface` -/
 def onComposite (v : Visitor) (reg : List (String × Addr)) (h : Heap) (a : Addr) (t : TypeO) : Heap × Option Addr :=
-  -- visibility: hidden type → None; else filter the fields IN PLACE (`object_type.fields = updated_fields`)
-  let pre : Option (Heap × TypeO) :=
-    match v with
-    | .vis p =>
-      if !p.isTypeVisible t.name then none else
-      let kept := t.fields.filter fun fa => match fieldName h fa with | some fnm => p.fieldVis t.name fnm | none => true
-      if kept != t.fields then
-        let t' := { t with fields := kept }
-        some (h.write a (.type t'), t')
-      else some (h, t)
-    | _ => some (h, t)
-  match pre with
-  | none => (h, none)
-  | some (h, t) =>
-    let r := mapFilter (onField v reg t.name) h t.fields
-    let upd := if r.2 != t.fields then r.1.alloc (.type { t with fields := r.2 }) else (r.1, a)
-    match v with
-    | .heal =>
-      if t.kind == .object then
-        match upd.1.readType upd.2 with
-        | some tu => (upd.1.write upd.2 (.type { tu with ifaces := healedRefs reg tu.ifaces }), some upd.2)
-        | none => (upd.1, some upd.2)
-      else (upd.1, some upd.2)
-    | _ => (upd.1, some upd.2)
+  match v with
+  | .vis p =>
+    -- visibility: hidden type → None; else filter the fields IN PLACE (`object_type.fields = updated_fields`)
+    if !p.isTypeVisible t.name then (h, none) else
+    let kept := t.fields.filter fun fa => match fieldName h fa with | some fnm => p.fieldVis t.name fnm | none => true
+    if kept != t.fields then
+      compositeRest v reg a (h.write a (.type { t with fields := kept })) { t with fields := kept }
+    else compositeRest v reg a h t
+  | _ => compositeRest v reg a h t
 
 /-- `on_union` -/
 def onUnion (v : Visitor) (reg : List (String × Addr)) (h : Heap) (a : Addr) (t : TypeO) : Heap × Option Addr :=
@@ -281,30 +286,36 @@ def onLeaf (v : Visitor) (h : Heap) (a : Addr) (t : TypeO) : Heap × Option Addr
   | .vis p => if p.isTypeVisible t.name then (h, some a) else (h, none)
   | _ => (h, some a)
 
+/-- base part of `on_input_object`; `nm` is the name of the type the visibility hook is asked about -/
+def inputRest (v : Visitor) (reg : List (String × Addr)) (a : Addr) (nm : String) (h : Heap) (t : TypeO) : Heap × Option Addr :=
+  let r := mapFilter (onInputField v reg) h t.fields
+  let upd := if r.2 != t.fields then r.1.alloc (.type { t with fields := r.2 }) else (r.1, a)
+  match v with
+  | .vis p => if p.isTypeVisible nm then (upd.1, some upd.2) else (upd.1, none)
+  | _ => (upd.1, some upd.2)
+
 /-- `on_input_object` -/
 def onInputObject (v : Visitor) (reg : List (String × Addr)) (h : Heap) (a : Addr) (t : TypeO) : Heap × Option Addr :=
-  let pre : Heap × TypeO :=
-    match v with
-    | .vis p =>
-      let kept := t.fields.filter fun fa => match argName h fa with | some fnm => p.inputVis t.name fnm | none => true
-      if kept != t.fields then
-        let t' := { t with fields := kept }
-        (h.write a (.type t'), t')
-      else (h, t)
-    | _ => (h, t)
-  let r := mapFilter (onInputField v reg) pre.1 pre.2.fields
-  let upd := if r.2 != pre.2.fields then r.1.alloc (.type { pre.2 with fields := r.2 }) else (r.1, a)
   match v with
-  | .vis p => if p.isTypeVisible t.name then (upd.1, some upd.2) else (upd.1, none)
-  | _ => (upd.1, some upd.2)
+  | .vis p =>
+    let kept := t.fields.filter fun fa => match argName h fa with | some fnm => p.inputVis t.name fnm | none => true
+    if kept != t.fields then
+      inputRest v reg a t.name (h.write a (.type { t with fields := kept })) { t with fields := kept }
+    else inputRest v reg a t.name h t
+  | _ => inputRest v reg a t.name h t
+
+/-- `VisibilitySchemaTransform.on_directive`: `not self.is_directive_visible(directive.name)` -/
+def dirHidden (v : Visitor) (name : String) : Bool :=
+  match v with
+  | .vis p => !p.dirVis name
+  | _ => false
 
 /-- `on_directive` -/
 def onDirective (v : Visitor) (reg : List (String × Addr)) (h : Heap) (a : Addr) : Heap × Option Addr :=
   match h.readDir a with
   | none => (h, some a)
   | some d =>
-    let hidden := match v with | .vis p => !p.dirVis d.name | _ => false
-    if hidden then (h, none) else
+    if dirHidden v d.name then (h, none) else
     let r := mapFilter (onArgument v reg) h d.args
     if r.2 != d.args then
       let r2 := r.1.alloc (.dir { d with args := r.2 })
@@ -431,14 +442,12 @@ def buildTypeMap (h : Heap) (fuel : Nat) (roots : List Addr) : List (String × A
 def copyArgs (h : Heap) : List Addr → Heap × List Addr
   | [] => (h, [])
   | a :: as =>
-    match h.read a with
-    | some o =>
-      let r := h.alloc o
+    match h.readArg a with
+    | some g =>
+      let r := h.alloc (.arg g)
       let rs := copyArgs r.1 as
       (rs.1, r.2 :: rs.2)
-    | none =>
-      let rs := copyArgs h as
-      (rs.1, a :: rs.2)
+    | none => copyArgs h as     -- (no such object: cannot happen for live Python objects)
 
 /-- `_clone_field` of the fixed code -/
 def copyFields (h : Heap) : List Addr → Heap × List Addr
@@ -450,9 +459,7 @@ def copyFields (h : Heap) : List Addr → Heap × List Addr
       let r := ra.1.alloc (.field { f with args := ra.2 })
       let rs := copyFields r.1 as
       (rs.1, r.2 :: rs.2)
-    | none =>
-      let rs := copyFields h as
-      (rs.1, a :: rs.2)
+    | none => copyFields h as
 
 /-- `copy.copy(t)` (legacy) / `_clone_type(t)` (fixed) -/
 def cloneType (cfg : Cfg) (h : Heap) (t : TypeO) : Heap × Addr :=
@@ -530,36 +537,55 @@ def transform (cfg : Cfg) (fuel : Nat) (vs : List Visitor) (s : Schema) (h : Hea
 
 def refOK (reg : List (String × Addr)) (r : Ref) : Bool := lookup reg r.name == some r.addr
 
-def argClosed (h : Heap) (reg : List (String × Addr)) (a : Addr) : Bool :=
+/-- shape of the object graph below an argument / input field: it exists and its type reference passes `chk` -/
+def argShape (chk : Ref → Bool) (h : Heap) (a : Addr) : Bool :=
   match h.readArg a with
-  | some g => refOK reg g.ty.base
+  | some g => chk g.ty.base
   | none => false
 
-def fieldClosed (h : Heap) (reg : List (String × Addr)) (a : Addr) : Bool :=
+def fieldShape (chk : Ref → Bool) (h : Heap) (a : Addr) : Bool :=
   match h.readField a with
-  | some f => refOK reg f.ty.base && f.args.all (argClosed h reg)
+  | some f => chk f.ty.base && f.args.all (argShape chk h)
   | none => false
 
-def typeClosed (h : Heap) (reg : List (String × Addr)) (a : Addr) : Bool :=
+def typeShape (chk : Ref → Bool) (h : Heap) (a : Addr) : Bool :=
   match h.readType a with
   | some t =>
-    t.ifaces.all (refOK reg) && t.members.all (refOK reg) &&
-      (if t.kind == .input then t.fields.all (argClosed h reg) else t.fields.all (fieldClosed h reg))
+    t.ifaces.all chk && t.members.all chk &&
+      (if t.kind == Kind.input then t.fields.all (argShape chk h) else t.fields.all (fieldShape chk h))
   | none => false
 
-def dirClosed (h : Heap) (reg : List (String × Addr)) (a : Addr) : Bool :=
+def dirShape (chk : Ref → Bool) (h : Heap) (a : Addr) : Bool :=
   match h.readDir a with
-  | some d => d.args.all (argClosed h reg)
+  | some d => d.args.all (argShape chk h)
   | none => false
 
-def rootOK (reg : List (String × Addr)) : Option Ref → Bool
+def rootOK (chk : Ref → Bool) : Option Ref → Bool
   | none => true
-  | some r => refOK reg r
+  | some r => chk r
+
+def shapeB (chk : Ref → Bool) (h : Heap) (s : Schema) : Bool :=
+  s.types.all (fun e => typeShape chk h e.2) && s.dirs.all (fun e => dirShape chk h e.2) &&
+    rootOK chk s.query && rootOK chk s.mutation && rootOK chk s.subscription
+
+def argClosed (h : Heap) (reg : List (String × Addr)) (a : Addr) : Bool := argShape (refOK reg) h a
+def fieldClosed (h : Heap) (reg : List (String × Addr)) (a : Addr) : Bool := fieldShape (refOK reg) h a
+def typeClosed (h : Heap) (reg : List (String × Addr)) (a : Addr) : Bool := typeShape (refOK reg) h a
+def dirClosed (h : Heap) (reg : List (String × Addr)) (a : Addr) : Bool := dirShape (refOK reg) h a
+
+/-- a registry entry holds a type object carrying the name it is registered under -/
+def nameOK (h : Heap) (e : String × Addr) : Bool :=
+  match h.readType e.2 with
+  | some t => t.name == e.1
+  | none => false
+
+/-- well-formed: every registered address holds a type / directive object whose member lists hold
+    field / argument objects (no statement about where references point) -/
+def wfB (h : Heap) (s : Schema) : Bool := shapeB (fun _ => true) h s
 
 /-- every reference reachable through fields, arguments, input fields, interfaces, union members,
     directive arguments and root operations is THE object registered under its name -/
 def closedB (h : Heap) (s : Schema) : Bool :=
-  s.types.all (fun e => typeClosed h s.types e.2) && s.dirs.all (fun e => dirClosed h s.types e.2) &&
-    rootOK s.types s.query && rootOK s.types s.mutation && rootOK s.types s.subscription
+  shapeB (refOK s.types) h s && s.types.all (nameOK h)
 
 end PyGql.Heap
